@@ -239,6 +239,8 @@ def one_scenario(chk, base, rotate):
                 # a failing call: ENOSPC for writes and renames, EIO for the removal of a stored file
                 points.append((name, k, "error"))
 
+    points = list(dict.fromkeys(points))
+
     def inject_one(pt):
         name, k, how = pt
         ds = os.path.join(base, "%s-%s%d%s" % (tag, name, k, how))
